@@ -40,6 +40,11 @@ CHECKS = {
          "With a harness congestion controller dictating the window (2, 3, 10 datagrams, huge) and with Cubic / NewReno / BBR, incl. ECN-CE marks, Retry, rebinding, migration and key update, every execution with <=k fate deviations is run; each emitted datagram is classified by the independent decoder and an ack-eliciting datagram must not leave when bytes in flight (probe value read before the poll_transmit call plus earlier datagrams of the batch) plus its size reach the window, except owed loss probes, one MTU probe, path-validation packets and CONNECTION_CLOSE. After completion on a quiet network bytes in flight must be 0; fault-free runs over latency x controller x ack-frequency x workload must declare no packet lost. Controller minimum-window search (E1) is merged from /verif/comp.",
          "Bytes in flight / window / owed probes read through the __verif probe; one open known finding (coalescing bypass) is reported as KNOWN-FINDING.",
          "DESIGN.md#c12"),
+ "C13": ("E3+E1", "fault_enumeration",
+         "exhaustive (link-MTU, change point, new link-MTU) enumeration on real endpoints with a per-datagram size oracle; explicit-state search of MtuDiscovery",
+         "Over a link that silently drops datagrams above M(t), every (M0, change step, M1) triple with M in {1200,1280,1400,1452,1500,9000} is run for configurations varying initial/min MTU, discovery, peer max_udp_payload_size, GSO, pad-to-MTU and certificate size, with stream and datagram workloads. Every emitted datagram is checked against current_mtu() read just before the poll_transmit call, probe bounds (upper bound, peer limit), the 1200-byte rules for client Initials / path validation / loss probes, GSO segment equality; the estimate may rise only to the size of a delivered probe and never below the floor; the transfer must still complete. MtuDiscovery component search (E1) is merged from /verif/comp.",
+         "Link MTUs below the configured minimum are outside the premise; one open known finding (pad_to_mtu black-hole deadlock) is reported as KNOWN-FINDING.",
+         "DESIGN.md#c13"),
  "C20": ("E3", "fault_enumeration",
          "exhaustive insertion-point enumeration with differential (replay / time-translated / extra-call) runs of real endpoints",
          "For a list of input histories (baselines incl. Retry, CID rotation, key update, rebinding, migration, and every single-deviation history) the run is repeated: identically (bit-identical trace incl. every poll_timeout value), with all Instants shifted by 1 s / 1 day / 10 years (identical relative trace), with a spurious handle_timeout or extra poll round inserted at EVERY step index on either side (identical packets, frames and events), and with all datagrams re-fed plus ten timeouts after both sides drained (no output). A timer may not fire more than 16 consecutive times at one instant.",
